@@ -206,3 +206,173 @@ pub fn c02(args: &Args) -> Vec<Scenario> {
     let _ = (MS, hist_name(&HistoryQosPolicyKind::KeepAll));
     v
 }
+
+// ---------------------------------------------------------------------------------------------------------------
+// C05: fragment reassembly for any size under all fragment-level fault patterns
+// ---------------------------------------------------------------------------------------------------------------
+fn permutations(n: usize) -> Vec<Vec<usize>> {
+    fn rec(cur: &mut Vec<usize>, used: &mut Vec<bool>, n: usize, out: &mut Vec<Vec<usize>>) {
+        if cur.len() == n {
+            out.push(cur.clone());
+            return;
+        }
+        for i in 0..n {
+            if !used[i] {
+                used[i] = true;
+                cur.push(i);
+                rec(cur, used, n, out);
+                cur.pop();
+                used[i] = false;
+            }
+        }
+    }
+    let mut out = vec![];
+    rec(&mut vec![], &mut vec![false; n], n, &mut out);
+    out
+}
+
+/// serialized size of KeyedData{id, seq, value[len]} = 4 (encapsulation) + 1 + 3 + 4 + 4 + len, padded to 4
+fn value_len_for_serialized(total: usize) -> Option<usize> {
+    if total < 16 + 1 || total % 4 != 0 {
+        return None;
+    }
+    Some(total - 16)
+}
+
+async fn fragments(ctx: Ctx, frag: usize, value_lens: Vec<usize>, reliable: bool) {
+    let f = ctx.factory("", None);
+    let n1 = node::<KeyedData>(&f, 0, "T").await;
+    let n2 = node::<KeyedData>(&f, 0, "T").await;
+    let mut wq = reliable_w(HistoryQosPolicyKind::KeepAll, Some(100));
+    let rq = if reliable { reliable_r(HistoryQosPolicyKind::KeepAll) } else { best_effort_r(HistoryQosPolicyKind::KeepAll) };
+    if !reliable {
+        wq.reliability.kind = ReliabilityQosPolicyKind::BestEffort;
+    }
+    let w = n1.publisher.create_datawriter::<KeyedData>(&n1.topic, QosKind::Specific(wq), NO_LISTENER, NO_STATUS).await.expect("writer");
+    let r = n2.subscriber.create_datareader::<KeyedData>(&n2.topic, QosKind::Specific(rq), NO_LISTENER, NO_STATUS).await.expect("reader");
+    if !wait_pub_matched(&ctx, &w, 1, 3000).await || !wait_sub_matched(&ctx, &r, 1, 3000).await {
+        ctx.violation("setup/no-match", "no match");
+        return;
+    }
+    // capture the first transmission of every user DATA / DATA_FRAG datagram instead of delivering it
+    let stash: Rc<std::cell::RefCell<Vec<Vec<u8>>>> = Rc::new(std::cell::RefCell::new(vec![]));
+    let st = stash.clone();
+    crate::sim::with(|wd| {
+        wd.net.filter = Some(Box::new(move |d, m| {
+            let hit = d.src == 0 && d.dst == 1 && !d.meta && m.subs.iter().any(|s| (s.id == crate::wire::DATA_FRAG || s.id == crate::wire::DATA) && crate::wire::is_user_entity(&s.writer));
+            if hit {
+                st.borrow_mut().push(d.bytes.as_ref().clone());
+            }
+            hit
+        }))
+    });
+    for (i, len) in value_lens.iter().enumerate() {
+        w.write(sample(1 + i as u8, i as u32, *len), None).await.expect("write");
+    }
+    ctx.sleep_ms(1).await;
+    crate::sim::with(|wd| wd.net.filter = None);
+    let datagrams: Vec<Vec<u8>> = stash.borrow().clone();
+    let k = datagrams.len();
+    ctx.obs(format!("frag={frag} lens={value_lens:?} datagrams={k}"));
+    // fate of every captured datagram and the delivery order: all enumerated
+    let fates: Vec<usize> = (0..k).map(|_| ctx.choose(b'N', 3)).collect(); // 0 deliver, 1 drop, 2 duplicate
+    let perms = if k <= 4 { permutations(k) } else { vec![(0..k).collect(), (0..k).rev().collect(), (0..k).map(|i| (i * 2) % k + (if i * 2 >= k && k % 2 == 0 { 1 } else { 0 })).collect()] };
+    let order = &perms[ctx.choose(b'N', perms.len())];
+    let mut order_ok = order.clone();
+    order_ok.sort();
+    order_ok.dedup();
+    let order: Vec<usize> = if order_ok.len() == k { order.clone() } else { (0..k).collect() };
+    for &i in &order {
+        match fates[i] {
+            0 => ctx.inject(1, datagrams[i].clone()),
+            1 => {}
+            _ => {
+                ctx.inject(1, datagrams[i].clone());
+                ctx.inject(1, datagrams[i].clone());
+            }
+        }
+    }
+    let any_dropped = fates.iter().any(|f| *f == 1);
+    let start = ctx.now();
+    let mut got: Vec<u32> = vec![];
+    loop {
+        for s in take_all(&r).await {
+            let Some(d) = s.data else { continue };
+            let Some(len) = value_lens.get(d.seq as usize) else {
+                ctx.violation("unknown-sample", format!("seq {}", d.seq));
+                continue;
+            };
+            if d.value != pattern(d.seq, *len) || d.id != 1 + d.seq as u8 {
+                let first_bad = d.value.iter().zip(pattern(d.seq, *len).iter()).position(|(a, b)| a != b);
+                ctx.violation(
+                    format!("payload-corrupt/{}", if d.value.len() != *len { "length" } else { "content" }),
+                    format!("frag={frag} written value len {len}, presented len {}, first differing byte {first_bad:?}; fates={fates:?} order={order:?}", d.value.len()),
+                );
+            }
+            if got.contains(&d.seq) {
+                ctx.violation("duplicate", format!("seq {} presented twice; fates={fates:?} order={order:?}", d.seq));
+            }
+            ctx.obs(format!("take seq={} len={} t={} fates={fates:?} order={order:?}", d.seq, d.value.len(), ctx.ms()));
+            got.push(d.seq);
+        }
+        if got.len() == value_lens.len() {
+            break;
+        }
+        if ctx.now() - start > 3 * SEC {
+            if reliable {
+                ctx.violation(format!("not-delivered/{}", if any_dropped { "after-loss" } else { "reorder-or-duplicate-only" }), format!("frag={frag} lens={value_lens:?}: got {got:?} after 3 s; fates={fates:?} order={order:?}"));
+            } else if !any_dropped && fates.iter().all(|f| *f == 0) && order.windows(2).all(|w| w[0] < w[1]) {
+                ctx.violation("not-delivered/best-effort-no-fault", format!("frag={frag} lens={value_lens:?}: got {got:?}"));
+            }
+            break;
+        }
+        ctx.sleep_ms(20).await;
+    }
+    ctx.sleep_ms(450).await;
+    for s in take_all(&r).await {
+        if let Some(d) = s.data {
+            if got.contains(&d.seq) {
+                ctx.violation("duplicate", format!("seq {} presented twice (late); fates={fates:?} order={order:?}", d.seq));
+            }
+        }
+    }
+}
+
+pub fn c05(args: &Args) -> Vec<Scenario> {
+    let t = args.thorough();
+    let mut v = vec![];
+    let frags: Vec<usize> = if t { vec![8, 9, 10, 12, 16, 63, 64, 65, 1344, 64_999, 65_000] } else { vec![8, 12, 64, 65, 1344, 65_000] };
+    for &f in &frags {
+        for kk in 1..=4usize {
+            if f > 2000 && kk > if t { 3 } else { 2 } {
+                continue;
+            }
+            for delta in [-4i64, 0, 4] {
+                // total serialized size around k*f (the serialized sample is always a multiple of 4 bytes)
+                let total = ((kk * f) as i64 + delta).max(20);
+                let total = (total as usize + 3) / 4 * 4;
+                let Some(len) = value_len_for_serialized(total) else { continue };
+                for reliable in [true, false] {
+                    if !reliable && !t && f != 64 && f != 12 {
+                        continue;
+                    }
+                    v.push(Scenario::new(format!("C05.frag[f={f},k={kk},delta={delta},len={len},rel={reliable}]"), 99, move |ctx| fragments(ctx, f, vec![len], reliable)).cfg(|c| {
+                        c.fragment_size = f;
+                        c.horizon_ms = 30_000;
+                    }));
+                }
+            }
+        }
+    }
+    // two fragmented samples whose fragments interleave (3 fixed interleavings + fates)
+    for &f in &[16usize, 64] {
+        for reliable in [true, false] {
+            let (a, b) = (value_len_for_serialized(2 * f + 4).unwrap(), value_len_for_serialized(2 * f).unwrap());
+            v.push(Scenario::new(format!("C05.interleave[f={f},rel={reliable}]"), 99, move |ctx| fragments(ctx, f, vec![a, b], reliable)).cfg(|c| {
+                c.fragment_size = f;
+                c.horizon_ms = 30_000;
+            }));
+        }
+    }
+    v
+}
